@@ -593,8 +593,30 @@ fn free_vars_in_block(b: &ast::Block) -> HashSet<String> {
     &used - &declared
 }
 
+fn is_value_only_go_builtin(name: &str) -> bool {
+    matches!(
+        name,
+        "append"
+            | "len"
+            | "string"
+            | "int8"
+            | "int16"
+            | "int32"
+            | "int64"
+            | "uint8"
+            | "uint16"
+            | "uint32"
+            | "uint64"
+            | "float32"
+            | "float64"
+    )
+}
+
 fn expr_has_side_effects(e: &ast::Expr) -> bool {
     match e {
+        ast::Expr::Call { func, args, .. } if matches!(func.as_ref(), ast::Expr::Var { name, .. } if is_value_only_go_builtin(name)) => {
+            args.iter().any(expr_has_side_effects)
+        }
         ast::Expr::Call { .. } => true,
         ast::Expr::Block { stmts, expr, .. } => {
             // any side-effect in nested statements or nested expr
